@@ -40,6 +40,25 @@ def run(ctx):
             except Exception as e:  # noqa
                 ctx.violation("LCD analysis raised %s when the kernel starts at line %d" % (type(e).__name__, st + 1),
                               dict(im.info(), start_line=st, exception=type(e).__name__))
+        # the same instruction-form objects analysed again with the other flag-dependency setting: cycles, figure and LCD
+        # column must be those of the second analysis alone
+        if ctx.rng.random() < 0.5:
+            try:
+                # report of the first analysis first (it is what sets per-line marks)
+                from osaca.frontend import Frontend
+
+                if im.arch != "synisa":
+                    Frontend(arch=im.arch).combined_view(im.kernel, im.kdg.get_critical_path(), im.kdg.get_loopcarried_dependencies())
+                sub = None
+                if len(im.kernel) >= 3 and ctx.rng.random() < 0.6:
+                    a = ctx.rng.randrange(0, len(im.kernel) - 1)
+                    sub = (a, ctx.rng.randrange(a + 1, len(im.kernel) + 1))
+                im3 = im.reanalysed(im.fd if sub is not None and ctx.rng.random() < 0.5 else not im.fd, sub=sub)
+                dgcheck.oracle_cycles(ctx, im3)
+                ctx.count("reanalysed_kernels")
+            except Exception as e:  # noqa
+                ctx.violation("re-analysis of the same kernel objects with the other flag-dependency setting raised %s" % type(e).__name__,
+                              dict(im.info(), exception=type(e).__name__, reanalysed_after_flag_deps=im.fd))
         if ctx.counts["kernels"] == 1:
             ctx.sample({"kernel": im.lines, "isa": im.isa, "arch": im.arch, "lcd": sorted(im.lcd_set())})
         if len(ctx.violations) > 10:
